@@ -73,8 +73,9 @@ func TestC05_Shield(t *testing.T) {
 		cbh.BlockEffects = rapid.IntRange(0, 2).Draw(t, "hangingSideEffects") == 0 // webhooks that never return
 		cbh.Decoy = rapid.IntRange(0, 2).Draw(t, "secondBreakerInProcess") == 0
 		cbh.StockFallback = rapid.IntRange(0, 2).Draw(t, "stockResponseFallback") == 0
+		cbh.FailingFallback = !cbh.StockFallback && rapid.IntRange(0, 5).Draw(t, "fallbackHandlerPanics") == 0
 		d := cbh.New(t, expr, F, R, P, phase)
-		cbh.Decoy, cbh.StockFallback = false, false
+		cbh.Decoy, cbh.StockFallback, cbh.FailingFallback = false, false, false
 		d.ImplicitOK = rapid.IntRange(0, 2).Draw(t, "implicit200") == 0
 		cbh.BlockEffects = false
 		cbh.UseFormatLogger = false
